@@ -681,6 +681,14 @@ static void do_case(vin_t *in, vout_t *o) {
 				if (cnt > n + 4) break; /* a line iterator cannot yield more lines than bytes+1 */
 			}
 			vout_u8(o, 0); vout_i32(o, rc); vout_u64(o, cnt);
+		} else if (sub == 5) {
+			/* continuation from a slice chosen by the caller (a line it trimmed itself), anywhere inside the buffer */
+			uint32_t off = vin_u32(in), ls = vin_u32(in);
+			const uint8_t *nl = NULL; size_t nls = SENT; int rc;
+			if (in->bad || (size_t)off + ls > n) { vx_free(b, n); break; }
+			rc = buf_get_next_line(b, n, b + off, ls, &nl, &nls);
+			if (rc == 0) { vout_u8(o, 1); vout_i64(o, rel(nl, b)); vout_u64(o, nls); }
+			vout_u8(o, 0); vout_i32(o, rc); vout_u64(o, rc == 0);
 		} else {
 			size_t r = 0;
 			switch (sub) {
